@@ -301,8 +301,17 @@ func (ls *liveServer) handler(id int) http.HandlerFunc {
 			<-ls.gate
 		}
 		w.Header().Set("X-H", fmt.Sprint(id))
+		if id%5 == 4 {
+			// no Content-Type, no WriteHeader, the body in several writes: net/http sniffs the type from the first 512 bytes
+			// of what is written before the header goes out ("\n<html>…" is text/html), whatever the chunking
+			w.Write([]byte("\n"))
+			w.Write([]byte(fmt.Sprintf("<html>h%d:", id)))
+			w.Write(body)
+			return
+		}
+		w.Header().Set("Content-Type", "application/x-tv")
 		// the ways a handler may legitimately answer; the client must see status 210+id and the same body in every one
-		switch id % 4 {
+		switch id % 5 {
 		case 1:
 			// an informational response first (103 Early Hints), then the final status
 			w.Header().Set("Link", "</s.css>; rel=preload")
@@ -363,7 +372,7 @@ func startServer(httpR, httpsR, mw string, grpcOn bool, blockRoutes bool) (*live
 			}
 		}
 		if blockRoutes {
-			add("GET", "/block", ls.handler(99))
+			add("GET", "/block", ls.handler(85))
 		}
 	}
 	if httpR != "off" {
@@ -480,7 +489,8 @@ func (ls *liveServer) request(l, method, path string, bodyLen int) string {
 	if i := bytes.IndexByte(rb, ':'); i >= 0 && bytes.Equal(rb[i+1:], body) {
 		echoOK = 1
 	}
-	return fmt.Sprintf("status=%d xh=%s saw=%s bodysum=%s echo=%d trace=%s", resp.StatusCode, orDash(resp.Header.Get("X-H")), saw, sum(body), echoOK, trace)
+	return fmt.Sprintf("status=%d xh=%s saw=%s bodysum=%s echo=%d trace=%s ct=%s", resp.StatusCode, orDash(resp.Header.Get("X-H")), saw, sum(body), echoOK, trace,
+		orDash(strings.ReplaceAll(resp.Header.Get("Content-Type"), " ", "_")))
 }
 
 func orDash(s string) string {
@@ -737,7 +747,7 @@ func runScenario(listeners string, inflight int, ample, ready bool) string {
 	for i := 0; i < started; i++ {
 		select {
 		case r := <-results:
-			if strings.HasPrefix(r, "status=309") {
+			if strings.HasPrefix(r, "status=295") {
 				completed++
 			}
 		case <-time.After(10 * time.Second):
